@@ -847,12 +847,24 @@ pub fn exec(case: &Value, tag: &str) -> Value {
                 remove_files(&copy_path);
                 let backend = run.stores[0].backend.as_ref().unwrap().clone();
                 let target_uri = uri_of(&copy_path, &journal);
-                let r = block_on(async {
-                    let store = Store::from(backend);
-                    let r = store.copy_to(&target_uri, parse_method(&m), passkey(&p), true).await;
-                    drop(store);
-                    r
-                });
+                // Creating the fresh WAL-mode target file can fail with SQLITE_BUSY ("database is locked") while the pool's
+                // first connections race on the journal-mode switch (seen ~1 in 1000 under 16 threads, also for plain
+                // provisioning): that is set-up, not this property — retry a few times.
+                let mut r = Err(aries_askar::Error::from(askar_storage::Error::from(askar_storage::ErrorKind::Backend)));
+                for attempt in 0..6 {
+                    remove_files(&copy_path);
+                    let b2 = backend.clone();
+                    r = block_on(async {
+                        let store = Store::from(b2);
+                        let r = store.copy_to(&target_uri, parse_method(&m), passkey(&p), true).await;
+                        drop(store);
+                        r
+                    });
+                    match &r {
+                        Err(e) if format!("{:?}", e).contains("database is locked") => { bump(&mut run.feat, "copy:retry-after-locked-provision"); std::thread::sleep(std::time::Duration::from_millis(30 * (attempt + 1))); }
+                        _ => break,
+                    }
+                }
                 match r {
                     Ok(target) => {
                         bump(&mut run.feat, &format!("copy:{}->{}", class_of(&run.stores[0].method), class_of(&m)));
